@@ -8,7 +8,9 @@ CLAIMED = {
    text="Solver-based, bounded, KERNEL of the property: (a) the emitter's operator-expression paths (emit_binop_expr, the unary arm of emit_expr, determine_binop_plan) "
         "are symbolically executed from the whole-crate MIR with every operator/operand-type tag symbolic; each feasible path yields the exact Rust tokens it emits, "
         "which are parsed with Rust's precedence table and compared with the IR tree (operand order, conversions, documented operator form, grouping at nesting depth 2); "
-        "(b) the run-time helpers the emitted code calls for / // % (all C04 obligations) and for indexing, slicing and range (all C05 harnesses) are decided as under C04/C05.",
+        "(b) the run-time helpers the emitted code calls for / // % (all C04 obligations) and for indexing, slicing and range (all C05 harnesses) are decided as under C04/C05; "
+        "(c) the front half of the same chain: the operator levels of the parser (token -> AST operator, associativity, precedence ladder) and the binary / unary / "
+        "index / slice arms of AstLowering::lower_expr (same operator, operands in order) are executed as slices with sub-parsers / recursive lowering summarised by arbitrary results.",
    note="Kernel-only: statements, control flow, calls, pattern matching, mutation, collection literals, f-strings and every other lowering/emission path are NOT "
         "covered (they build HashMaps/iterate Vecs and are outside both engines, DESIGN section 3). One known finding: nested operator expressions lose their parentheses "
         "(`(a + b) * c` -> `a + b * c`), recorded in known_findings.json; any other mis-grouping or operand/operator mix-up is still reported.",
@@ -41,7 +43,7 @@ CLAIMED = {
         "property). One known finding (|a % b| == |b| by rounding, same as CPython) is listed in known_findings.json.",
    ref="DESIGN.md section 4, C04"),
  "C05": dict(
-   cat="model_checking", tech="bounded model checking of the compiled code (Kani/CBMC harnesses, symbolic i64/Option<i64> arguments)",
+   cat="model_checking", tech="bounded model checking of the compiled code (Kani/CBMC harnesses, symbolic i64/Option<i64> arguments) + enum-level MIR symbolic execution (SMT) of the parse/lower/emit links",
    text="Solver-based, bounded: Kani harnesses call the real list_get/list_get_mut/list_slice/str_char_at/str_index/str_slice/range/PyRange::next with "
         "every i64 / Option<i64> argument (2^195 slice triples) on lists of <= 4 (thorough 6) symbolic elements and strings of 0..4 (thorough 6) scalars of "
         "1-4 bytes, against CPython's index/slice/range semantics written in i128; overflow, OOB and unwinding assertions stay on; range is one inductive "
@@ -108,7 +110,7 @@ m = {
  "engines": [
    {"name": "E1 kani", "path": "kani/", "serves_properties": [c for c in ("C01", "C05", "C07", "C11", "C13", "C14", "C19") if c in claimed],
     "kind_free_text": "Kani 0.68 / CBMC 6.11 proof harnesses in an external crate with path dependencies on /repo; counterexamples replayed by replay/ (same harness bodies, native, dev+release)"},
-   {"name": "E2 mirsmt", "path": "mirsmt/", "serves_properties": [c for c in ("C01", "C04", "C07", "C13") if c in claimed],
+   {"name": "E2 mirsmt", "path": "mirsmt/", "serves_properties": [c for c in ("C01", "C04", "C05", "C06", "C07", "C13") if c in claimed],
     "kind_free_text": "own symbolic executor over rustc's -Zunpretty=mir dump of the working tree, emitting SMT-LIB for cvc5 1.0 / z3 4.8.12"},
  ],
  "checks": [],
@@ -124,7 +126,7 @@ for pid in sorted(CLAIMED):
             "thorough_cmd": f"./check {pid} --tier thorough",
             "evidence_file": f"/verif/evidence/{pid}.json",
             "replay_cmd_template": f"./check {pid} --replay {{path}}",
-            "engine": {"C04": "E2 mirsmt + E1 kani", "C06": "E2 mirsmt + E1 kani", "C01": "E2 mirsmt + E1 kani", "C07": "E2 mirsmt + E1 kani", "C13": "E1 kani + E2 mirsmt"}.get(pid, "E1 kani"),
+            "engine": {"C04": "E2 mirsmt + E1 kani", "C05": "E1 kani + E2 mirsmt", "C06": "E2 mirsmt + E1 kani", "C01": "E2 mirsmt + E1 kani", "C07": "E2 mirsmt + E1 kani", "C13": "E1 kani + E2 mirsmt"}.get(pid, "E1 kani"),
             "level_claimed": {"category": c["cat"], "text": c["text"], "design_ref": c["ref"]},
             "level_note": c["note"],
             "technique": c["tech"],
